@@ -354,17 +354,28 @@ def trlog2(T, check=True, twist=False):
             else:
                 return np.zeros((3, 3))
         else:
-            if twist:
-                return base.vexa(scipy.linalg.logm(T))
+            # closed form: rotation angle by atan2, translation through the
+            # inverse of V = [[a, -b], [b, a]], a = sin(th)/th, b = (1-cos(th))/th
+            theta = math.atan2(T[1, 0], T[0, 0])
+            if abs(theta) < 1e-3:
+                a = 1 - theta ** 2 / 6
+                b = theta / 2 - theta ** 3 / 24
             else:
-                return scipy.linalg.logm(T)
+                a = math.sin(theta) / theta
+                b = (1 - math.cos(theta)) / theta
+            v = np.array([[a, b], [-b, a]]) @ T[:2, 2] / (a * a + b * b)
+            if twist:
+                return np.r_[v, theta]
+            else:
+                return base.Ab2M(base.skew(theta), v)
 
     elif isrot2(T, check=check):
         # SO(2) rotation matrix
+        theta = math.atan2(T[1, 0], T[0, 0])
         if twist:
-            return base.vex(scipy.linalg.logm(T))
+            return np.array([theta])
         else:
-            return scipy.linalg.logm(T)
+            return base.skew(theta).astype(float)
     else:
         raise ValueError("Expect SO(2) or SE(2) matrix")
 # ---------------------------------------------------------------------------------------#
